@@ -9,17 +9,20 @@ FINDERS = {
     "C06": [("chunk_witness", ["c06"])],
     "C07": [("chunk_witness", ["c07"])],
     "C08": [("chunk_witness", ["c08"])],
-    "C15": [("chunk_witness", ["c15"])],
+    "C15": [("chunk_witness", ["c15"]), ("session_witness", ["c15"])],
     "C19": [("chunk_witness", ["c19"]), ("amf0_witness", ["c12"])],
-    "C03": [("chunk_witness", ["c06"]), ("chunk_witness", ["c01"]), ("amf0_witness", ["c14"]), ("msg_witness", [])],
+    "C03": [("chunk_witness", ["c06"]), ("chunk_witness", ["c01"]), ("amf0_witness", ["c14"]), ("msg_witness", []), ("hs_witness", ["c05"])],
     "C16": [("c16_interleave", [])],
     "C04": [("amf0_witness", ["c04"])],
     "C12": [("amf0_witness", ["c12"]), ("amf0_witness", ["c04"])],
     "C14": [("amf0_witness", ["c14"])],
     "C13": [("msg_witness", [])],
-    "C18": [("chunk_witness", ["c07"]), ("chunk_witness", ["c08"])],
+    "C18": [("chunk_witness", ["c07"]), ("chunk_witness", ["c08"]), ("session_witness", ["c18"])],
     "C05": [("hs_witness", ["c05"])],
     "C11": [("hs_witness", ["c11"])],
+    "C09": [("session_witness", ["c09"])],
+    "C10": [("session_witness", ["c10"])],
+    "C17": [("session_witness", ["c17"])],
 }
 
 def build(repo, scratch, bins):
